@@ -22,7 +22,13 @@ func Cell(raw []byte, off int, typ byte, meta uint16, unsigned bool) (txt []byte
 	data = append(data, Pre[:off]...)
 	data = append(data, raw...)
 	data = append(data, Post...)
+	orig := append([]byte{}, data...)
 	pan = chk.Catch(func() { txt, n, err = replication.CellBytes(data, off, typ, meta, unsigned) })
+	if pan == "" && err == nil && !bytes.Equal(orig, data) {
+		// the decoder must not modify the event bytes it reads (a second decode
+		// of the same event would see something else)
+		err = fmt.Errorf("decoding modified its input: bytes %x became %x", Clip(orig[off:off+len(raw)]), Clip(data[off:off+len(raw)]))
+	}
 	return
 }
 
